@@ -180,6 +180,7 @@ class Ctx:
         for rel in rels:
             path = os.path.join(self.build, rel)
             r = self._coqc(rel, timeout)
+            self.extra.setdefault('coqc_seconds', {})[rel] = round(r['s'], 1)
             names = [m.group(2) or 'Goal' for m in STMT.finditer(strip_comments(open(path).read()))]
             if r['ok']:
                 if count_statements:
